@@ -524,6 +524,16 @@ class DirectSolver(LinearSolver):
                 x_vec[:] = sol_array
 
         # matrix-vector-product generated jacobians are scaled.
+        elif mode == 'rev' and (system._has_output_scaling or system._has_resid_scaling):
+            # The matrix was assembled column by column in the forward scaled space,
+            # Ms = Dr^-1 M Do (Do, Dr = output and residual scale factors).  Output and residual
+            # vectors keep that scaling in rev mode, where the scaled operator is (Dr M Do^-1)^T,
+            # so the solve needs Dr^-2 Ms^-T Do^2: apply the unscaling context twice around it.
+            with system._unscaled_context(outputs=[d_outputs], residuals=[d_residuals]):
+                with system._unscaled_context(outputs=[d_outputs], residuals=[d_residuals]):
+                    x_vec[:] = scipy.linalg.lu_solve(self._lup, b_vec, trans=trans_lu)
+            sol_array = x_vec
+
         else:
             x_vec[:] = sol_array = scipy.linalg.lu_solve(self._lup, b_vec, trans=trans_lu)
 
